@@ -9,10 +9,16 @@
 
 #include <nix/NDArray.hpp>
 
+#include <stdexcept>
+
 namespace nix {
 
 
 NDArray::NDArray(DataType dtype, NDSize dims) : dataType(dtype), extends(dims) {
+    if (dtype == DataType::String) {
+        // the elements live in a plain byte buffer: std::string objects cannot be read into or written from it
+        throw std::invalid_argument("NDArray: element type String is not supported");
+    }
     allocate_space();
 }
 
